@@ -19,6 +19,7 @@ import (
 var (
 	repo   = flag.String("repo", "/repo", "repository root")
 	outDir = flag.String("out", "", "output directory for Z80/Gen/*.lean")
+	noUnf  = flag.String("characterised", "", "file listing functions that have a proved characterisation (not tagged for unfolding)")
 )
 
 // ---------------------------------------------------------------------------
@@ -64,6 +65,7 @@ type tr struct {
 	cpuFields []string
 	constRecs []map[string]string
 	im0Fields []string
+	charact   map[string]bool
 }
 
 type swModule struct {
@@ -1194,9 +1196,77 @@ func (c *fctx) ret(x *ast.ReturnStmt) {
 	}
 }
 
+// pureIf recognises `if c { v op= e } [else if ... | else { v op= e' }]` where every condition and
+// right-hand side is pure and every branch assigns the same local variable exactly once; such a
+// statement is the conditional expression `v := if c then … else …` (no control flow).
+func (c *fctx) pureIf(x *ast.IfStmt) (lhs *ast.Ident, build func() string, ok bool) {
+	if x.Init != nil || c.hasImpureCall(x.Cond) {
+		return nil, nil, false
+	}
+	one := func(stmts []ast.Stmt) (*ast.Ident, *ast.AssignStmt, bool) {
+		if len(stmts) != 1 {
+			return nil, nil, false
+		}
+		as, ok := stmts[0].(*ast.AssignStmt)
+		if !ok || len(as.Lhs) != 1 || len(as.Rhs) != 1 || as.Tok == token.DEFINE {
+			return nil, nil, false
+		}
+		id, ok := as.Lhs[0].(*ast.Ident)
+		if !ok || id.Name == "_" || c.hasImpureCall(as.Rhs[0]) {
+			return nil, nil, false
+		}
+		if _, isVar := c.t.info.Uses[id].(*types.Var); !isVar {
+			return nil, nil, false
+		}
+		return id, as, true
+	}
+	id, as, ok1 := one(x.Body.List)
+	if !ok1 {
+		return nil, nil, false
+	}
+	valOf := func(as *ast.AssignStmt) string {
+		if op, isOp := opAssign[as.Tok]; isOp {
+			be := &ast.BinaryExpr{X: as.Lhs[0], Op: op, Y: as.Rhs[0], OpPos: as.TokPos}
+			c.t.info.Types[be] = types.TypeAndValue{Type: c.typeOf(as.Lhs[0])}
+			return c.binary(be)
+		}
+		return c.expr(as.Rhs[0])
+	}
+	var elseBuild func() string
+	switch e := x.Else.(type) {
+	case nil:
+		elseBuild = func() string { return mangle(id.Name) }
+	case *ast.BlockStmt:
+		id2, as2, ok2 := one(e.List)
+		if !ok2 || c.t.info.Uses[id2] != c.t.info.Uses[id] {
+			return nil, nil, false
+		}
+		elseBuild = func() string { return valOf(as2) }
+	case *ast.IfStmt:
+		id2, b2, ok2 := c.pureIf(e)
+		if !ok2 || c.t.info.Uses[id2] != c.t.info.Uses[id] {
+			return nil, nil, false
+		}
+		elseBuild = b2
+	default:
+		return nil, nil, false
+	}
+	return id, func() string {
+		cond := c.expr(x.Cond)
+		th := valOf(as)
+		el := elseBuild()
+		return fmt.Sprintf("(if %s then %s else %s)", cond, th, el)
+	}, true
+}
+
 func (c *fctx) ifStmt(x *ast.IfStmt) {
 	if x.Init != nil {
 		c.t.failf(x.Pos(), "if with init statement")
+	}
+	if id, build, ok := c.pureIf(x); ok && c.fi.kind == kMon {
+		val := build()
+		c.emit("%s := %s", mangle(id.Name), val)
+		return
 	}
 	cond := c.expr(x.Cond)
 	c.emit("if %s then", cond)
